@@ -464,7 +464,7 @@ pub fn history_case(ch: &mut Chooser, t: &mut Tally) {
 }
 
 pub fn run(tier: Tier, _seed: u64, tally: &mut Tally) -> CheckMeta {
-    let depth = if tier.thorough() { 4 } else { 3 };
+    let depth = if tier.thorough() { 5 } else { 4 };
     DEPTH.store(depth, Ordering::Relaxed);
     explore("c09.history", Limits::new(0).wall(if tier.thorough() { 3000 } else { 150 }), tally, history_case);
     tally.validated = tally.evaluations;
